@@ -47,7 +47,11 @@ Fixpoint mact (a : act) (s : mst) {struct a} : mst * list ev :=
         let '(qs', out) := zip_drain (S (length (hd [] qs))) qs in
         (m_set_st s (st_set_qs (m_st s) qs'), out)
       else (s, [])
-  | ASubscribe _ _ | ASubjNew _ | ASubjCall _ _ | ADeliver _ _ => (s, [])      (* outside MLoc's catalogue *)
+  | ASubscribe _ _ =>
+      (* new_observer: the next serial (= number of observers made so far) is registered - already unsubscribed if the
+         subscriber has left - and the source named by the action is subscribed with it: from now on the feed may address it *)
+      (m_set_es s (m_es s ++ [(length (m_es s), (m_alive s, m_alive s))]), [])
+  | ASubjNew _ | ASubjCall _ _ | ADeliver _ _ => (s, [])      (* outside MLoc's catalogue *)
   end.
 
 Fixpoint macts (l : list act) (s : mst) : mst * list ev :=
@@ -58,6 +62,7 @@ Definition port_of (op : opk) (ser : nat) : nat :=
   match op with
   | OZip => ser
   | OTakeUntil | OSkipUntil | OSample => ser        (* 0 = trigger, 1 = source *)
+  | OResume => ser                                  (* 0 = source, 1 = the observable the resume function returned (ASubscribe .. 1) *)
   | _ => 0
   end.
 
@@ -88,12 +93,47 @@ Definition mst0 (op : opk) (nothers : nat) : mst :=
 
 Definition mrun (op : opk) (nothers : nat) (l : list (nat * ev)) : list ev := snd (mfeed op nothers (mst0 op nothers) l).
 
+(* concat / on_error_resume_next subscribe their further sources later: initially only serial 0 exists *)
+Definition mst0_first (op : opk) (nothers : nat) : mst :=
+  {| m_st := init_state op (repeat PNever nothers); m_es := [(0, (true, true))]; m_alive := true |}.
+Definition mrun_first (op : opk) (nothers : nat) (l : list (nat * ev)) : list ev := snd (mfeed op nothers (mst0_first op nothers) l).
+
 (* ------------------------------------------------------------------ specifications (Spec3): what the ReactiveX definition assigns
    to a sequential interleaving `l` of (source, event) among n sources.  `closed` = the sources that have
    signalled their terminal (or were dropped): whatever they "emit" afterwards does not exist. *)
 Definition memb (x : nat) (l : list nat) : bool := existsb (Nat.eqb x) l.
 Definition all_in (n : nat) (closed : list nat) : bool := forallb (fun i => memb i closed) (seq 0 n).
 Definition here (n : nat) (closed : list nat) (j : nat) : bool := Nat.ltb j n && negb (memb j closed).
+
+(* concat of n sources: source `cur` is the only one subscribed; its items pass, its error ends everything, its complete
+   moves on to the next source (or completes after the last); what the other sources emit meanwhile is not heard *)
+Fixpoint spec_concat (n : nat) (cur : nat) (l : list (nat * ev)) : list ev :=
+  match l with
+  | [] => []
+  | (j, e) :: r =>
+      if Nat.eqb j cur then
+        match e with
+        | Nx v => Nx v :: spec_concat n cur r
+        | Er x => [Er x]
+        | Co => if Nat.leb n (S cur) then [Co] else spec_concat n (S cur) r
+        end
+      else spec_concat n cur r
+  end.
+
+(* on_error_resume_next with one resume source (serial 1, subscribed when source 0 fails): the source's items, then - if it
+   failed - the resume source's items and terminal; an error of the resume source is final *)
+Fixpoint spec_resume (cur : nat) (l : list (nat * ev)) : list ev :=
+  match l with
+  | [] => []
+  | (j, e) :: r =>
+      if Nat.eqb j cur then
+        match e with
+        | Nx v => Nx v :: spec_resume cur r
+        | Co => [Co]
+        | Er x => if Nat.eqb cur 0 then spec_resume 1 r else [Er x]
+        end
+      else spec_resume cur r
+  end.
 
 (* merge of n sources: every item in arrival order; the first error ends it; complete when all n have completed *)
 Fixpoint spec_merge (n : nat) (closed : list nat) (l : list (nat * ev)) : list ev :=
